@@ -474,6 +474,8 @@ func RunConnected(nick, user string, evs []Ev, opt ConnOptions) (obs, oracle str
 		cfg.RecoverFunc = func(c *girc.Client, e *girc.HandlerError) { panic(e) }
 	}
 	ss := drive.Start(cfg)
+	var general int64 // UPDATE_GENERAL notifications seen
+	ss.C.Handlers.Add(girc.UPDATE_GENERAL, func(c *girc.Client, e girc.Event) { atomic.AddInt64(&general, 1) })
 	healthy := true // after a wedge / missing PONG verdict the client is abandoned, not stopped
 	defer func() {
 		if healthy {
@@ -560,16 +562,26 @@ func RunConnected(nick, user string, evs []Ev, opt ConnOptions) (obs, oracle str
 		if !ok {
 			return "?unrenderable", ""
 		}
+		welcome := e.Cmd == "001" && len(e.Params) > 0
+		var before int64
+		if welcome {
+			// the welcome handler runs in the background; it ends with an UPDATE_GENERAL
+			// notification. Everything sent before is handled first, so that the next
+			// notification can only be its own.
+			if !barrier() {
+				break
+			}
+			before = atomic.LoadInt64(&general)
+		}
 		if !send(line) {
 			break
 		}
-		if e.Cmd == "001" && len(e.Params) > 0 {
-			// the welcome handler runs in the background: wait until it has taken effect
+		if welcome {
 			if !barrier() {
 				break
 			}
 			deadline := time.Now().Add(3 * time.Second)
-			for ss.C.GetNick() != e.Params[0] && e.Params[0] != "" && time.Now().Before(deadline) {
+			for atomic.LoadInt64(&general) == before && time.Now().Before(deadline) {
 				time.Sleep(50 * time.Microsecond)
 			}
 		}
